@@ -1553,7 +1553,7 @@ class ADKernel(Kernel):
         return self.k.__call__(X, Y, eval_gradient)
 
     def diag(self, X):
-        return self.k.diag(X)
+        return self.k.diag(X[:, self.active_dims])
 
     def __repr__(self):
         return self.k.__repr__()
